@@ -7,6 +7,7 @@ import Fan2go.Model.ControlLoop
 import Fan2go.Model.Curves
 import Fan2go.Model.Fan
 import Fan2go.Model.Controller
+import Fan2go.Model.Sensor
 open Fan2go Driver
 
 structure St where
@@ -16,6 +17,9 @@ structure St where
   sensors : SensorTable := []
   fan : FanSt := {}
   world : World := { fan := {}, dev := {}, ctl := {} }
+  snKind : SensorKind := .file
+  snAvg : F64 := F64.zero
+  snWin : Int := 10
   deriving Inhabited
 
 def indef := indefAmd64
@@ -263,6 +267,36 @@ def opWorld (st : St) (op : String) (a : KV) : St × String :=
     ({ st with world := w' }, s!"{resUnit r} log={obsLog o} " ++ worldState w')
   | _ => (st, "bad-op")
 
+
+/-! ### sensor stream -/
+
+def parseSensorIo (k : SensorKind) (a : KV) : SensorIo :=
+  match k with
+  | .cmd =>
+    if a.int "exit" 0 != 0 then .execErr
+    else match a.str "pv" "err" with
+      | "err" => .parseErr
+      | s => .parsed (parseF ((s.drop 3).toString))
+  | _ =>
+    let rd := a.str "read" "ok:0"
+    if rd.startsWith "ok:" then
+      match (rd.drop 3).toString.toInt? with
+      | some n => .readOk n
+      | none => .readFail
+    else .readFail
+
+def opSensor (st : St) (op : String) (a : KV) : St × String :=
+  match op with
+  | "sn.new" =>
+    let k := match a.str "kind" "file" with | "hwmon" => SensorKind.hwmon | "cmd" => .cmd | _ => .file
+    let avg := a.f64 "avg" F64.zero
+    ({ st with snKind := k, snAvg := avg, snWin := a.int "win" 10 }, "ok avg=" ++ fmtF avg)
+  | "sn.poll" =>
+    let (avg', r) := updateSensor st.snWin st.snAvg st.snKind (parseSensorIo st.snKind a)
+    let rs := match r with | .ok _ => "ok" | _ => "err"
+    ({ st with snAvg := avg' }, rs ++ " avg=" ++ fmtF avg')
+  | _ => (st, "bad-op")
+
 def step (st : St) (line : String) : St × String :=
   let toks := (line.splitOn " ").filter (· ≠ "")
   match toks with
@@ -297,6 +331,7 @@ def step (st : St) (line : String) : St × String :=
       | _ => (st, "bad-op")
     | "fan" => opFan st op a
     | "w" => opWorld st op a
+    | "sn" => opSensor st op a
     | _ => (st, "bad-op")
 
 partial def loop (hin : IO.FS.Stream) (hout : IO.FS.Stream) (st : St) : IO Unit := do
